@@ -36,6 +36,9 @@ def engine_ms(nominal_ms):
 
 
 
+PARENT_OPS = ("waitparent", "waittillparent", "notifyparent")
+
+
 def tok(ins):
     k = ins[0]
     if k == "mark": return "m%d" % ins[1]
@@ -50,6 +53,8 @@ def tok(ins):
     if k == "waitthread": return "T%d" % ins[1]
     if k == "pause": return "p"
     if k == "waitparent": return "R%d" % engine_ms(ins[1])
+    if k == "waittillparent": return "Y%s" % ".".join(str(n) for n in ins[1])
+    if k == "notifyparent": return "Z%d" % ins[1]
     if k == "end":
         if ins[1] is None: return "e"
         if isinstance(ins[1], tuple): return "eP%d" % ins[1][1]
@@ -87,6 +92,11 @@ def stmt(ins):
     if k == "waitthread": return "waitthread t%d local" % ins[1]
     if k == "pause": return "pause"
     if k == "waitparent": return "local.p0 wait %s" % secs(ins[1])
+    if k == "waittillparent":
+        if len(ins[1]) == 1:
+            return 'local.p0 waittill "n%d"' % ins[1][0]
+        return "local.p0 waittill_any %s" % " ".join('"n%d"' % n for n in ins[1])
+    if k == "notifyparent": return 'local.p0 notify "n%d"' % ins[1]
     if k == "end":
         if ins[1] is None: return "end"
         if isinstance(ins[1], tuple): return "end local.p%d" % ins[1][1]
@@ -101,7 +111,7 @@ def render(prog):
         if body and body[0][0] == "params":
             out.append("t%d %s:" % (i, " ".join("local.p%d" % j for j in range(body[0][1]))))
             body = body[1:]
-        elif any(x[0] == "waitparent" for x in body):
+        elif any(x[0] in PARENT_OPS for x in body):
             out.append("t%d local.p0:" % i)
         else:
             out.append("t%d:" % i)
@@ -115,7 +125,7 @@ def script_line(prog, name="m"):
     def head(body):
         if body and body[0][0] == "params":
             return ""
-        return "(1) " if any(x[0] == "waitparent" for x in body) else ""
+        return "(1) " if any(x[0] in PARENT_OPS for x in body) else ""
     abstract = " / ".join(head(body) + " ".join(tok(x) for x in body) for body in prog)
     return "script %s %s ## %s" % (name, render(prog).encode().hex(), abstract)
 
@@ -182,6 +192,38 @@ def gen_inexact_case(rng):
         lines.append("step %d" % (t - now))
         now = t
     return lines + ["step 1000", "thread-result"]
+
+
+def gen_hub_prog(rng):
+    """threads of ONE script instance waiting on a *thread object* (their spawner, `local.p0`):
+    label 1 is the hub; it spawns waiters / notifiers (labels 2..) that wait on it or notify it"""
+    mk = Marks()
+    nchild = rng.randint(2, 4)
+    hub = [mk.next()]
+    for i in range(nchild):
+        hub += [("thread", 2 + i)]
+        if rng.random() < 0.3:
+            hub.append(mk.next())
+    r = rng.random()
+    hub += [("pause",)] if r < 0.4 else [("wait", rng.choice(DURS + [500, 1000]))] if r < 0.8 else []
+    hub.append(mk.next())
+    if rng.random() < 0.5:
+        hub.append(("end", None))
+    prog = [[mk.next(), ("thread", 1), mk.next()], hub]
+    for i in range(nchild):
+        body = [mk.next()]
+        x = rng.random()
+        if x < 0.6:
+            names = [rng.choice([1, 2])] if rng.random() < 0.75 else [1, 2]
+            body += [("waittillparent", names), mk.next()]
+        elif x < 0.85:
+            body += [("wait", rng.choice(DURS)), ("notifyparent", rng.choice([1, 2])), mk.next()]
+        else:
+            body += [("waitparent", rng.choice(DURS)), mk.next()]
+        if rng.random() < 0.3:
+            body += [("wait", rng.choice(DURS)), mk.next()]
+        prog.append(body)
+    return prog
 
 
 def gen_sync_prog(rng):
@@ -319,7 +361,8 @@ def gen_call_case(rng):
 def gen_reset_case(rng):
     """C13: a sync/timer program run under a random schedule with director.Reset() or a recompile of the
     same script injected at a frame / host-call boundary, after which the script is compiled again and run"""
-    prog = gen_sync_prog(rng) if rng.random() < 0.7 else gen_timer_prog(rng)
+    r = rng.random()
+    prog = gen_sync_prog(rng) if r < 0.55 else gen_timer_prog(rng) if r < 0.8 else gen_hub_prog(rng)
     base = gen_case(rng, prog)
     body = base[2:-3]
     cut = rng.randint(1, len(body)) if body else 0
